@@ -362,7 +362,7 @@ def run(ctx, rep):
                     mentions_float_kind = any(isinstance(m, ast.Compare) and isinstance(m.left, ast.Attribute) and m.left.attr == "kind" and any(isinstance(a, ast.Attribute) and a.attr == "FLOAT" for a in ast.walk(m.comparators[0])) and isinstance(m.ops[0], ast.Eq) for m in ast.walk(t))
                     if mentions_float_kind:
                         cons_f = construct_of(val, "float-kind-needs-float-payload")
-                        payload_test = any(isinstance(m, ast.Call) and isinstance(m.func, ast.Name) and m.func.id == "isinstance" and len(m.args) == 2 and "float" in ast.unparse(m.args[1]) and "value" in ast.unparse(m.args[0]) for m in ast.walk(t))
+                        payload_test = any(isinstance(m, ast.Call) and isinstance(m.func, ast.Name) and m.func.id == "isinstance" and len(m.args) == 2 and ("float" in ast.unparse(m.args[1]) or "Real" in ast.unparse(m.args[1])) and "value" in ast.unparse(m.args[0]) for m in ast.walk(t))
                         if payload_test:
                             rep.ok("C18.4", cons_f, "the FLOAT-kind clause tests that the payload is a float (and integral)", f"{val.path}:{sub.lineno}")
                         else:
